@@ -43,6 +43,7 @@ func runC09(c *Ctx) {
 	c09R16(c)
 	c09R17(c)
 	c09R18(c)
+	c09R19(c)
 }
 
 // c09R10: only the source task's read may end a pass quietly.
@@ -1120,5 +1121,186 @@ func c09R18(c *Ctx) {
 			}
 		}
 		c.R.Check(seen && okAll, r, name+": impl.Run runs under a recover", c.Pos(fn.Pos()), "sandboxed", "the builtin adapter starts impl.Run in a goroutine without a deferred recover: a panic in a builtin connector's Run loop is a goroutine panic nobody can recover — the whole Conduit process dies, all pipelines with it", true)
+	}
+}
+
+// boolPhiSetBehind: a bool loop/merge phi whose every `true` incoming edge lies behind one of the gates.
+func boolFlagsSetBehind(fn *ssa.Function, g *kit.Gates) []*ssa.Phi {
+	var phis []*ssa.Phi
+	for _, b := range fn.Blocks {
+		for _, in := range b.Instrs {
+			if phi, ok := in.(*ssa.Phi); ok && types.Identical(phi.Type().Underlying(), types.Typ[types.Bool]) {
+				phis = append(phis, phi)
+			}
+		}
+	}
+	// greatest fixpoint: start from all bool phis, drop those with an edge that is neither false, a gated true,
+	// nor another candidate; keep only those that (transitively) have a gated true
+	cand := map[*ssa.Phi]bool{}
+	for _, p := range phis {
+		cand[p] = true
+	}
+	for changed := true; changed; {
+		changed = false
+		for _, phi := range phis {
+			if !cand[phi] {
+				continue
+			}
+			for i, e := range phi.Edges {
+				ok := false
+				switch {
+				case kit.IsBoolConst(e, false):
+					ok = true
+				case kit.IsBoolConst(e, true):
+					pred := phi.Block().Preds[i]
+					ok, _ = kit.MustPass(pred.Instrs[len(pred.Instrs)-1], g)
+				default:
+					if q, isPhi := e.(*ssa.Phi); isPhi && cand[q] {
+						ok = true
+					}
+				}
+				if !ok {
+					cand[phi] = false
+					changed = true
+					break
+				}
+			}
+		}
+	}
+	hasTrue := map[*ssa.Phi]bool{}
+	for changed := true; changed; {
+		changed = false
+		for _, phi := range phis {
+			if !cand[phi] || hasTrue[phi] {
+				continue
+			}
+			for _, e := range phi.Edges {
+				if kit.IsBoolConst(e, true) {
+					hasTrue[phi] = true
+				}
+				if q, isPhi := e.(*ssa.Phi); isPhi && hasTrue[q] {
+					hasTrue[phi] = true
+				}
+			}
+			if hasTrue[phi] {
+				changed = true
+			}
+		}
+	}
+	var out []*ssa.Phi
+	for _, phi := range phis {
+		if cand[phi] && hasTrue[phi] {
+			out = append(out, phi)
+		}
+	}
+	return out
+}
+
+// ctxErrNonNil: the edges on which ctx.Err() != nil for some context value in fn.
+func ctxErrNonNil(c *Ctx, fn *ssa.Function) []kit.Edge {
+	var out []kit.Edge
+	for _, b := range fn.Blocks {
+		for _, in := range b.Instrs {
+			if call, ok := in.(*ssa.Call); ok && call.Call.IsInvoke() && call.Call.Method.Name() == "Err" && strings.HasSuffix(call.Call.Value.Type().String(), "context.Context") {
+				out = append(out, kit.NilEdges(call, false)...)
+			}
+		}
+	}
+	return out
+}
+
+// c09R19: F68/F69. A source read that fails with context.Canceled is the engine's own graceful shutdown only when the
+// engine cancelled something. A standalone plugin whose stream ends with a Canceled status (the protocol client maps
+// the message "context canceled" to the sentinel), or a builtin connector whose Run returns a wrapped Canceled, hands
+// the same error with a LIVE node context: v1's fetcher goroutine dropped it and SourceNode.Run blocked for ever, v2's
+// worker returned nil for it and re-read the dead stream in a hot loop.
+func c09R19(c *Ctx) {
+	r := c.R.Rule("R19", "K3 a Canceled read error is swallowed only when the engine cancelled (both engines): in pubNodeBase.Trigger's fetcher a return without forwarding the error lies behind ctx.Err() != nil; in Worker.doTaskAttempt the graceful `return ctx.Err()` for a Canceled error lies behind ctx.Err() != nil or w.stop.Load()", 2)
+	isFn := c.W.LookupObj(pCerrors, "Is")
+	// v1: closures of Trigger that call the message fetcher
+	if fn := c.SSA(r, pStream, "(*pubNodeBase).Trigger"); fn != nil {
+		n := 0
+		for _, lit := range kit.WithAnon(fn) {
+			if lit == fn {
+				continue
+			}
+			// the fetcher loop: a closure with a Send on an error channel behind a failed fetch
+			var sends []ssa.Instruction
+			for _, b := range lit.Blocks {
+				for _, in := range b.Instrs {
+					switch x := in.(type) {
+					case *ssa.Send:
+						if x.X.Type().String() == "error" {
+							sends = append(sends, in)
+						}
+					case *ssa.Select:
+						for _, st := range x.States {
+							if st.Dir == types.SendOnly && st.Send != nil && st.Send.Type().String() == "error" {
+								sends = append(sends, in)
+							}
+						}
+					}
+				}
+			}
+			if len(sends) == 0 {
+				continue
+			}
+			// is this the fetcher (calls a func value returning ([]*Message, error))?
+			fetch := false
+			for _, b := range lit.Blocks {
+				for _, in := range b.Instrs {
+					if call, ok := in.(*ssa.Call); ok && call.Call.StaticCallee() == nil && !call.Call.IsInvoke() && kit.ErrIndexOfCall(call) == 1 {
+						fetch = true
+					}
+				}
+			}
+			if !fetch {
+				continue
+			}
+			n++
+			g := kit.NewGates().AddEdges(ctxErrNonNil(c, lit), "ctx.Err() != nil")
+			for _, sd := range sends {
+				g.AddInstr(sd, "error forwarded")
+			}
+			// every return behind a failed fetch has forwarded the error or saw the cancelled context
+			okAll := true
+			for _, b := range lit.Blocks {
+				for _, in := range b.Instrs {
+					call, ok := in.(*ssa.Call)
+					if !ok || call.Call.StaticCallee() != nil || call.Call.IsInvoke() || kit.ErrIndexOfCall(call) != 1 {
+						continue
+					}
+					for _, e := range kit.FailEdges(call) {
+						if pass, _ := kit.AllExitsFromEdge(e, false, kit.ExitSpec{Gates: g}); !pass {
+							okAll = false
+						}
+					}
+				}
+			}
+			c.R.Check(okAll, r, "v1 Trigger fetcher: a failed fetch is dropped only when the node context is cancelled", c.Pos(lit.Pos()), "forwarded or ctx.Err() != nil", "the fetcher goroutine of pubNodeBase.Trigger returns behind a failed fetch without forwarding the error and without having seen ctx.Err() != nil: a context.Canceled that stems from the plugin (its stream ended with a Canceled status) is dropped while the node context is alive — nobody learns about it, SourceNode.Run blocks in trigger() for ever, the pipeline stays 'running' and reads nothing", true)
+		}
+		c.R.Check(n >= 1, r, "v1 Trigger: fetcher goroutine", c.Pos(fn.Pos()), "found", "the fetcher goroutine of pubNodeBase.Trigger was not recognised", true)
+	}
+	// v2
+	if fn := c.SSA(r, pFunnel, "(*Worker).doTaskAttempt"); fn != nil {
+		stopF := c.Field(r, pFunnel, "Worker", "stop")
+		g := kit.NewGates().AddEdges(ctxErrNonNil(c, fn), "ctx.Err() != nil")
+		if stopF != nil {
+			for _, ld := range atomicCalls(fn, stopF, "Load") {
+				g.AddEdges(kit.CondEdges(ld.Value(), true), "w.stop.Load()")
+			}
+		}
+		_ = isFn
+		n := 0
+		for _, ret := range kit.Returns(fn) {
+			v := kit.RetVal(ret, 0)
+			call, ok := v.(*ssa.Call)
+			if !ok || !call.Call.IsInvoke() || call.Call.Method.Name() != "Err" {
+				continue
+			}
+			n++
+			c.Dominated(r, "v2 doTaskAttempt: a read error counts as a graceful stop only when the engine stopped something", []ssa.Instruction{ret}, g, "the ctx.Err() != nil or w.stop.Load() edge")
+		}
+		c.R.Check(n >= 1, r, "v2 doTaskAttempt: graceful return", c.Pos(fn.Pos()), "found", "no `return ctx.Err()` found in doTaskAttempt", true)
 	}
 }
